@@ -212,6 +212,8 @@ class Run(object):
         self.v6 = []             # per input line: addresses found by the live IPv6 pattern
         self.kw_subs = []
         self.raised = None       # class name of an exception that escaped the implementation (not the designed SubIPError)
+        self.mutated = None      # histories: the cleaner's containers before / after the call when they differ
+        self.fresh = None        # histories: outcome of the same call on a fresh cleaner with the same numbering
 
 
 def run_impl(case, scratch):
@@ -1063,6 +1065,238 @@ def load_corpus():
     return out
 
 
+
+# --------------------------------------------------------------------------- histories on ONE cleaner
+
+KINDS = ["hostname", "ip", "ipv6", "keyword", "mac", "password"]
+REGISTRY_DEFAULT = ["hostname", "ip", "ipv6", "mac"]          # what most registry points declare
+
+
+def snapshot(c):
+    """the cleaner's containers (self.obfuscate, self.redact, any ordering list): keys in order, identity and type
+    of the members — a call must leave them as they are"""
+    out = {"DEFAULT_OBFUSCATIONS": sorted(cleaner_mod.DEFAULT_OBFUSCATIONS)}
+    for name, v in sorted(vars(c).items()):
+        if isinstance(v, dict) and name in ("obfuscate", "redact"):
+            out[name] = [(repr(k), id(x), type(x).__name__) for k, x in v.items()]
+        elif isinstance(v, (list, tuple)):
+            out[name] = [(id(x), type(x).__name__) for x in v]
+    return out
+
+
+def changed_containers(before, after):
+    """containers that existed before the call and are different after it (a container that a call creates, or any
+    other dict / set the cleaner keeps — a cache — is not held against it: its effect, if any, shows in the outputs)"""
+    return [n for n in before if n in after and before[n] != after[n]] + [n for n in before if n not in after]
+
+
+def mappings(c):
+    out = {}
+    for name, key in (("ip", "ip"), ("host", "hostname"), ("mac", "mac"), ("ipv6", "ipv6")):
+        ob = c.obfuscate.get(key)
+        out[name] = [(m["original"], m["obfuscated"]) for m in ob.mapping()] if ob is not None else []
+    return out
+
+
+def one_call(c, call, lines):
+    """(canonical outcome, cleaned lines or None, exception class or None) of one call on an existing cleaner"""
+    try:
+        if call["route"] == "single":
+            res = c.clean_content(lines[0], no_obfuscate=call["no_obfuscate"], no_redact=call["no_redact"],
+                                  allowlist=call["allowlist"], width=call["width"])
+            return ("ok\tnone" if res is None else "ok\t" + item(res)), ([] if res is None else [res]), None
+        res = c.clean_content(list(lines), no_obfuscate=call["no_obfuscate"], no_redact=call["no_redact"],
+                              allowlist=call["allowlist"], width=call["width"])
+        return "\t".join(["ok"] + [item(l) for l in res]), res, None
+    except Exception as e:
+        msg = str(e.args[0]) if e.args else ""
+        if "SubIPError" in msg:
+            return "err:index", None, None
+        return "raised:" + type(e).__name__, None, type(e).__name__
+
+
+def run_history(hist):
+    """
+    Run the calls of a history on ONE Cleaner.  Per call: the outcome, the lines the IPv6 stage received, whether the
+    cleaner's containers changed, and the outcome of the same call on a FRESH cleaner of the same configuration whose
+    numbering was first brought to the state the shared cleaner had before the call (by cleaning, without any
+    exemption, one line per original in the order they were issued) — None when that state cannot be reproduced.
+    """
+    cfg = hist["cfg"]
+    res = []
+    try:
+        c = make_cleaner(cfg)
+    except Exception as e:
+        for call in hist["calls"]:
+            r = Run()
+            r.raised = type(e).__name__
+            r.out, r.lines_out, r.v6 = "raised:" + r.raised, None, [[] for _ in call["lines"]]
+            r.mutated, r.fresh = None, None
+            res.append(r)
+        return res
+    rec = []
+    v6 = c.obfuscate.get("ipv6")
+    if v6 is not None:
+        orig_parse = v6.parse_line
+
+        def recording(line, **kw):
+            rec.append(line)
+            return orig_parse(line, **kw)
+        v6.parse_line = recording
+    for call in hist["calls"]:
+        r = Run()
+        lines = call["lines"]
+        before_maps = guard(lambda: mappings(c))
+        before = snapshot(c)
+        del rec[:]
+        r.out, r.lines_out, r.raised = one_call(c, call, lines)
+        after = snapshot(c)
+        r.mutated = {"before": before, "after": after} if changed_containers(before, after) else None
+        r.v6 = [[] for _ in lines]
+        order = list(range(len(lines) - 1, -1, -1)) if call["route"] != "single" else [0]
+        if v6 is not None and len(rec) == len(order):
+            for idx, seen in zip(order, rec):
+                if seen:
+                    found = [m[0] for m in re.findall(v6.pattern, seen, re.I)]
+                    r.v6[idx] = [f for f in found if not any(re.search(i, f, re.I) for i in v6._ignore_list)]
+        # the same call on a fresh cleaner with the same numbering
+        r.fresh = None
+        if isinstance(before_maps, dict):
+            def fresh_run(before_maps=before_maps, call=call, lines=lines):
+                f = make_cleaner(cfg)
+                prime = [o for o, _ in before_maps["ip"]] + [o for o, _ in before_maps["host"] if o != cfg["fqdn"]] + \
+                        [o for o, _ in before_maps["mac"]] + [o for o, _ in before_maps["ipv6"]]
+                if prime:
+                    f.clean_content(list(reversed(prime)), no_redact=True)      # bottom-up: the first original is numbered first
+                m = mappings(f)
+                if m["ip"] != before_maps["ip"] or m["host"] != before_maps["host"]:
+                    return None
+                return one_call(f, call, lines)[0]
+            r.fresh = guard(fresh_run)
+        res.append(r)
+    final = guard(lambda: mappings(c))
+    kwo = c.obfuscate.get("keyword")
+    kw_subs = guard(lambda: [m["obfuscated"] for m in kwo.mapping()] if kwo else [])
+    for r in res:
+        if isinstance(final, dict):
+            r.tables = final
+        r.kw_subs = kw_subs if isinstance(kw_subs, list) else []
+    return res
+
+
+def g_secret_line(rng, cfg, kws):
+    """a line that carries a secret of every kind, in random order, among ordinary material"""
+    parts = [g_ip_ctx(rng, g_ip(rng)), g_mac_ctx(rng, g_mac(rng)), g_host(rng, cfg["fqdn"]), g_password(rng),
+             rng.choice(["fe80::1", "2001:db8:0:0:0:0:0:1", "2001:db8::8a2e:370:7334"])]
+    if kws:
+        parts.append(rng.choice(kws).strip() or "kw")
+    parts += [rng.choice(WORDS) for _ in range(rng.choice([0, 1, 2]))]
+    rng.shuffle(parts)
+    return " ".join(parts[:rng.choice([3, 4, 5, 6, 7])])
+
+
+def g_exemptions(rng):
+    k = rng.randrange(10)
+    if k < 3:
+        return list(REGISTRY_DEFAULT)
+    if k < 5:
+        return None if rng.random() < 0.5 else []
+    if k == 5:
+        return list(KINDS)
+    if k == 6:
+        return [rng.choice(KINDS)]
+    sub = [n for n in KINDS if rng.random() < 0.4]
+    rng.shuffle(sub)
+    return sub or [rng.choice(KINDS)]
+
+
+def g_history(rng):
+    """2-6 calls on one cleaner, each with its own exemption list; an exempting call comes first more often than not"""
+    base = g_case(rng, width_ok=False)
+    cfg = base["cfg"]
+    if rng.random() < 0.7:
+        cfg["obfuscate"] = True
+    if cfg["patterns"] and "regex" in cfg["patterns"] and rng.random() < 0.5:
+        cfg["patterns"] = None
+    kws = cfg["keywords"] or []
+    calls = []
+    for k in range(rng.choice([2, 2, 3, 3, 4, 5, 6])):
+        no_obf = g_exemptions(rng)
+        if k == 0 and rng.random() < 0.6 and not no_obf:
+            no_obf = list(REGISTRY_DEFAULT)
+        route = "content" if rng.random() < 0.85 else "single"
+        lines = []
+        for i in range(1 if route == "single" else rng.choice([1, 2, 2, 3, 4])):
+            l = g_secret_line(rng, cfg, kws) if rng.random() < 0.7 else g_line(rng, cfg, kws)
+            if route != "single":
+                m = u"\xa7%d\xa7" % i
+                l = (m + " " + l) if rng.random() < 0.5 else (l + " " + m)
+            lines.append(l)
+        calls.append({"no_obfuscate": no_obf, "no_redact": rng.random() < 0.15, "allowlist": None, "width": False,
+                      "route": route, "lines": lines, "markers": route != "single"})
+    return {"cfg": cfg, "calls": calls}
+
+
+def call_case(hist, k):
+    call = hist["calls"][k]
+    return {"cfg": hist["cfg"], "call": dict((x, call[x]) for x in ("no_obfuscate", "no_redact", "allowlist", "width", "route")),
+            "lines": call["lines"], "markers": call["markers"]}
+
+
+def history_fails(hist, res):
+    """oracle over a history: the per-call clauses for every call (each against ITS OWN exemptions), the comparison with
+    the fresh cleaner, and the cleaner's containers left unchanged.  [(call index, clause, text, finding)]"""
+    out = []
+    for k, r in enumerate(res):
+        case = call_case(hist, k)
+        for clause, text, fid in Oracle(case, r).check():
+            out.append((k, clause, "call %d of %d (no_obfuscate=%r after %r): %s" % (
+                k, len(res), case["call"]["no_obfuscate"], [c["no_obfuscate"] for c in hist["calls"][:k]], text), fid))
+        if r.fresh is not None and r.fresh != r.out:
+            def show(o):
+                f = o.split("\t")
+                return [f[0]] + [dec(x[1:]) if x.startswith("=") else x for x in f[1:]]
+            out.append((k, "exemption-scope", "call %d (no_obfuscate=%r) after calls with no_obfuscate=%r on the same cleaner gives %r; "
+                        "a fresh cleaner of the same configuration (same numbering) gives %r for the same call"
+                        % (k, case["call"]["no_obfuscate"], [c["no_obfuscate"] for c in hist["calls"][:k]], show(r.out), show(r.fresh)), None))
+        if r.mutated:
+            diff = changed_containers(r.mutated["before"], r.mutated["after"])
+            out.append((k, "cleaner-mutated", "call %d (no_obfuscate=%r) changed the cleaner's %s: %r -> %r" % (
+                k, case["call"]["no_obfuscate"], diff,
+                [[x[0] if isinstance(x, tuple) else x for x in r.mutated["before"][n]] for n in diff],
+                [[x[0] if isinstance(x, tuple) else x for x in r.mutated["after"].get(n, [])] for n in diff]), None))
+    return out
+
+
+def run_histories(chk, hists):
+    all_res, lines, cases = [], [], []
+    for h, hist in enumerate(hists):
+        res = run_history(hist)
+        all_res.append(res)
+        for k, r in enumerate(res):
+            case = call_case(hist, k)
+            lines.append(proto_line(case, r))
+            cases.append({"history": hist, "call": k})
+    model = run_driver("C08", lines)
+    impl = [r.out for res in all_res for r in res]
+    chk.compare("clean:history", cases, impl, model)
+    for hist, res in zip(hists, all_res):
+        chk.case(json.dumps(hist, sort_keys=True), nontrivial=any(r.lines_out is None or list(r.lines_out) != c["lines"]
+                                                                 for r, c in zip(res, hist["calls"])))
+        chk.count("history:calls:%d" % len(res))
+        seen = set()
+        for k, (r, call) in enumerate(zip(res, hist["calls"])):
+            mine = set(call["no_obfuscate"] or [])
+            for kind in sorted(seen - mine):
+                chk.count("history:call-not-exempting-%s-after-a-call-that-did" % kind)
+            seen |= mine
+            chk.count("history:fresh-comparison:" + ("none" if r.fresh is None else "equal" if r.fresh == r.out else "differs"))
+        for k, clause, text, fid in history_fails(hist, res):
+            chk.count("oracle:" + clause + (":" + fid if fid else ""))
+            chk.failure("%s: %s" % (clause, text), {"op": "history", "history": hist, "call": k}, finding=fid)
+    return all_res
+
+
 # --------------------------------------------------------------------------- recogniser streams
 
 def guard(f):
@@ -1305,6 +1539,10 @@ def run(chk):
         "Python `re` on the patterns of cleaner/*.py: hand-written recognisers, validated per run against the live pattern strings (streams recogniser:*)",
         "character classes \\w, \\s exact below U+0250 (checked exhaustively per run); text beyond is refused by the driver and not generated",
         "substitute generation (address numbering, SHA-1 names) is a table parameter read from the obfuscators' mapping() (property C09)",
+        "per-spec exemptions: in the model the exemption list is an argument of the call (theorems stages_depend_on_own_exemptions, exemption_is_per_call are "
+        "true by construction), so that the implementation does not carry an exemption from one call to the next is decided by the correspondence over "
+        "histories on ONE Cleaner (stream clean:history, each call against the model with ITS OWN exemptions), by the per-call oracle clauses, by the comparison "
+        "with a fresh Cleaner brought to the same numbering, and by the check that a call leaves cleaner.obfuscate / cleaner.redact / any list or dict of the cleaner unchanged",
         "IPv6 recogniser is a parameter of the model (property does not claim IPv6); width-preserving IPv4 mode is tied by correspondence only",
         "regular-expression exclusion lists: theorem for an arbitrary matcher; the model evaluates the family ^? (class|literal)+? $? with POSIX bracket classes itself; "
         "for any other expression (groups, back-references, named groups, top-level alternation, inline flags, quantifiers) regex semantics is outside the model: "
@@ -1338,6 +1576,16 @@ def run(chk):
             for c, r in list(zip(cases, runs_))[:4]:
                 chk.sample({"cfg": c["cfg"], "call": c["call"], "lines": c["lines"], "impl": r.out.split("\t")[0],
                             "cleaned": r.lines_out})
+
+    # ---- histories: 2-6 calls with different exemption lists on ONE cleaner
+    hs = []
+    while len(hs) < (500 if quick else 8000):
+        h = g_history(chk.rng)
+        if all(in_domain(call_case(h, k)) for k in range(len(h["calls"]))):
+            hs.append(h)
+    hres = run_histories(chk, hs)
+    chk.sample({"history": [{"no_obfuscate": c["no_obfuscate"], "lines": c["lines"]} for c in hs[0]["calls"]],
+                "cleaned": [r.lines_out for r in hres[0]]})
 
     # ---- exclusion lists of several independent regular expressions, no other stage running
     rl = []
@@ -1453,7 +1701,21 @@ def replay(data):
         return 1 if bad else 0
     c = data["case"]
     print("replaying", json.dumps(c, ensure_ascii=False)[:3000])
-    if c.get("op") == "rxbad":
+    if c.get("op") == "history":
+        hist = c["history"]
+        res = run_history(hist)
+        model = run_driver("C08", [proto_line(call_case(hist, k), r) for k, r in enumerate(res)])
+        for k, (r, m) in enumerate(zip(res, model)):
+            print("call %d no_obfuscate=%r no_redact=%r" % (k, hist["calls"][k]["no_obfuscate"], hist["calls"][k]["no_redact"]))
+            print("  lines:", hist["calls"][k]["lines"])
+            print("  impl :", r.out.split("\t")[0], r.lines_out, "" if r.out == m else "  <-- differs from the model")
+            if r.fresh is not None and r.fresh != r.out:
+                print("  fresh cleaner, same call:", [dec(x[1:]) if x.startswith("=") else x for x in r.fresh.split("\t")])
+        fails = history_fails(hist, res)
+        for k, clause, text, fid in fails:
+            print("ORACLE %s: %s%s" % (clause, text[:1500], "  [known finding %s]" % fid if fid else ""))
+        bad = bool(fails)
+    elif c.get("op") == "rxbad":
         alone, inside = behaviour([c["pattern"]]), behaviour(c["list"])
         print("pattern %r alone: %s; inside %r: %s" % (c["pattern"], alone, c["list"], inside))
         bad = alone != inside
